@@ -130,4 +130,21 @@ theorem source_handler_is_model (ops : SettingsOps σ) (pfx : Str) (c : Client) 
     | .panic _ => (handleMsg ops pfx c s m canPub fits).2.2.2 = .panic :=
   poll_closure_tie ops pfx c s m canPub fits envG envS hG hS
 
+open MiniconfVerif.Gen MiniconfVerif.Gen.Core MiniconfVerif.Gen.Mqtt MiniconfVerif.GenTie in
+/-- **`iter_list` as translated from miniconf_mqtt/src/lib.rs** (one pass of its `while can_publish { .. }` loop is
+`Gen.Mqtt.iter_list_body`; `runListG` runs the loop as written: `k` passes with a free publication slot, then the
+condition fails) **is the model's list pump** `listPump`, about which `list_no_gaps`, `list_complete` and
+`list_any_schedule` speak: for every number of granted slots, every remaining path list, response topic and correlation
+data — one `Continue` message per path in order, then one `Ok` with empty payload together with the `Complete` transition
+(`Multipart → Single`), every message on the cached response topic with the cached correlation data, nothing else sent,
+no panic. -/
+theorem source_iter_list_is_model {E Es X : Type} (env : Env E Es Pend) (rt : Str) (cd : Option (List Nat))
+    (k : Nat) (rem : List Str) (acts0 : List (Act E Es)) (log : List String) (ext : X) :
+    ∃ cl', runListG env k { st := .Multipart, pending := ⟨rem, some rt, cd⟩, acts := acts0, log := log, ext := ext } = .val cl' ∧
+      cl'.pending = ⟨(listPump rt cd rem k).1, some rt, cd⟩ ∧
+      cl'.st = (if (listPump rt cd rem k).2.2 then SmState.Single else SmState.Multipart) ∧
+      cl'.log = log ∧ cl'.ext = ext ∧
+      ∃ new, cl'.acts = acts0 ++ new ∧ new.filterMap outOfAct = (listPump rt cd rem k).2.1 :=
+  iter_list_tie env rt cd k rem acts0 log ext
+
 end MiniconfVerif.C07
